@@ -15,4 +15,4 @@ def run(ctx):
         ops_array.case_views(ctx, s)
     # the views of an object after it was produced by other operations / mutated in place
     ops_array.derived_views(ctx, ctx.budget(60, 600))
-    ops_array.history_same_object(ctx, ctx.budget(25, 300))
+    ops_array.history_same_object(ctx, ctx.budget(60, 600))
